@@ -446,10 +446,12 @@ Definition dnl_loop (rec : mem -> option addr -> N -> mem * option addr * N) (a1
           let nilc' := match ch' with None => S nilc | Some _ => nilc end in
           let limit' := (limit - d)%N in
           let vd' := (vd + d)%N in
-          let '(m3, np) := handle_deletion m2 a1 pk in
-          if (nilc' =? 16) && negb (is_some (c_sv c)) then (m3, None, vd')
-          else if (limit' =? 0)%N then (m3, Some np, vd')
-          else loop n' (S i) m3 nilc' limit' vd'
+          if (nilc' =? 16) && negb (is_some (c_sv c)) then (m2, None, vd')
+          else if (limit' =? 0)%N then
+            (* handleDeletion only when the limit is used up and its result is returned
+               (repo commit 1209e2508; before it was called after every child) *)
+            let '(m3, np) := handle_deletion m2 a1 pk in (m3, Some np, vd')
+          else loop n' (S i) m2 nilc' limit' vd'
         end
       end
     end.
